@@ -177,6 +177,9 @@ class Fn:
             return term
         if ty == "int" and term == "(0 : Int)":
             return "(0 : α)"
+        if ty == "int" and self.probing and re.fullmatch(r"[A-Za-z_]\w*", term) and self.unit.float_mode:
+            self.promote.add(term)      # pass 1: an int variable used among floats — in pass 2 it is a float from its first assignment (which must be the literal 0)
+            return term
         fail(node, f"a {ty} where a float is needed (among floats only the int literal 0 is converted)")
 
     def ops(self):
@@ -645,7 +648,10 @@ class Fn:
             if len(args) != len(sg.params):
                 why = why or f"call of {c} with {len(args)} arguments (expects {len(sg.params)})"
                 continue
-            bad = [(pn, pt, ta) for (a, ta), (pn, pt) in zip(args, sg.params) if ta != pt]
+            def fits(ta, pt):       # an Optional parameter takes a value or None
+                return ta == pt or (isinstance(pt, tuple) and pt[0] == "opt" and ta in (pt[1], "none")) \
+                    or (pt == "flt" and ta == "int")       # float mode: the literal 0 (checked by as_flt below)
+            bad = [(pn, pt, ta) for (a, ta), (pn, pt) in zip(args, sg.params) if not fits(ta, pt)]
             if bad:
                 pn, pt, ta = bad[0]
                 why = why or f"argument '{pn}' of {c}: a {ta} is passed where the translated signature has {pt}"
@@ -656,7 +662,15 @@ class Fn:
             fail(n, why or f"call of '{fname}', which is not translated")
         fname = sig.name
         objmap = {pn: a for (a, ta), (pn, pt) in zip(args, sig.params) if pt == "obj"}
-        terms = [a for (a, ta) in args if ta != "obj"]
+        terms = []
+        for (a, ta), (pn, pt) in zip(args, sig.params):
+            if pt == "obj":
+                continue
+            if isinstance(pt, tuple) and pt[0] == "opt" and ta == pt[1]:
+                a = f"(some {a})"
+            elif pt == "flt" and ta == "int":
+                a = self.as_flt(a, ta, n)
+            terms.append(a)
         unit = self.unit
 
         class _Subst(ast.NodeTransformer):
@@ -2068,6 +2082,23 @@ GMX2_SWAP = Unit("Gmx2SwapPricingUtils", _G2 + "SwapPricingUtils.py", [
     obj_records={"GetPriceImpactUsdParams": _G2 + "SwapPricingUtils.py"}, narrow=True)
 GMX2_SWAP.uses = [GMX2_UTILS, GMX2_MARKET_UTILS]
 UNITS.append(GMX2_SWAP)
+
+
+_G2_BOTH = dict(_G2_CFG, **_G2_STATUS)
+GMX2_DEPOSIT = Unit("Gmx2ExecuteDepositUtils", _G2 + "ExecuteDepositUtils.py", [
+    ("calc_token_amount", {"pool_config": "obj", "pool_status": "obj", "tokenInPrice": FL, "tokenOutPrice": FL, "amount": FL, "priceImpactUsd": FL,
+                           "impactPoolAmount": ("opt", FL)}, {"reads": _G2_BOTH}),
+    ("get_mint_amount", {"pool_config": "obj", "pool_status": "obj", "long_amount": FL, "short_amount": FL}, {"reads": _G2_BOTH}),
+], cls="ExecuteDepositUtils", prefix="gmx2_", float_mode=True, records=_G2_RECORDS, enums={"SwapPricingType": _G2 + "SwapPricingUtils.py"},
+    obj_records={"GetPriceImpactUsdParams": _G2 + "SwapPricingUtils.py"}, narrow=True, allow_defaults=True)
+GMX2_DEPOSIT.uses = [GMX2_UTILS, GMX2_MARKET_UTILS, GMX2_SWAP]
+UNITS.append(GMX2_DEPOSIT)
+GMX2_WITHDRAW = Unit("Gmx2ExecuteWithdrawUtils", _G2 + "ExecuteWithdrawUtils.py", [
+    ("getOutputAmount", {"pool_config": "obj", "pool_status": "obj", "marketTokenAmount": FL}, {"reads": _G2_BOTH}),
+], cls="ExecuteWithdrawUtils", prefix="gmx2_", float_mode=True, records=_G2_RECORDS, enums={"SwapPricingType": _G2 + "SwapPricingUtils.py"},
+    narrow=True)
+GMX2_WITHDRAW.uses = [GMX2_UTILS, GMX2_MARKET_UTILS, GMX2_SWAP]
+UNITS.append(GMX2_WITHDRAW)
 
 
 BROKER_TYPING = Unit("BrokerTyping", "demeter/broker/_typing.py", [
